@@ -22,7 +22,7 @@ def RULE(tier):
     return (
         f"all DAGs on <= {NMAX[tier]} nodes (kinds task/literal/alias/list-node/nested-list, <= 1 non-plain kind at the largest n) x every "
         f"set F of failing tasks with |F| <= {MAXF[tier]} x exception kind (ValueError, user Exception subclass with extra args, "
-        "BaseException subclass, unpicklable exception) x requests (full key list, every single key) x entry points "
+        "BaseException subclass (also on a legacy multiprocessing.pool-style executor whose workers only catch Exception), unpicklable exception, a second exception class sharing its NAME with one raised by an earlier failing multiprocessing call in the same process) x requests (full key list, every single key) x entry points "
         f"{ENTRIES} x (num_workers, chunksize) in {CONFIGS} x EVERY completion order; 2 recorder callbacks active. "
         "non-trivial = >= 2 batches pending simultaneously in some execution."
     )
@@ -38,9 +38,11 @@ def cases_of(shard, tier):
         if not (lo <= mask < hi) or style != "int" or rev:
             continue
         reqs = [list(range(n))] + list(range(n))
-        for fail in _sweep.failsets(n, mask, kinds, MAXF[tier], "VUBP"):
+        for fail in _sweep.failsets(n, mask, kinds, MAXF[tier], "VUBPW"):
             eks = {ek for _, ek in fail}
             if "P" in eks and entry not in ("mp", "mp_noopt", "async"):
+                continue
+            if "W" in eks and (entry not in ("mp", "mp_noopt") or len(fail) > 1):
                 continue
             if ("U" in eks or "B" in eks) and len(fail) > 1 and n >= 4:
                 continue  # multi-failure sets at the largest n use the ValueError kind only
@@ -48,6 +50,10 @@ def cases_of(shard, tier):
                 configs = [(1, 1)] if entry == "sync" else CONFIGS
                 for nw, cs in configs:
                     yield (entry, n, mask, kinds, "int", False, req, nw, cs, fail)
+                if "B" in eks and entry in ("threaded", "mp_noopt", "mp") and len(fail) == 1:
+                    # legacy multiprocessing.pool-style workers: only Exception is caught inside the worker
+                    for nw, cs in [(2, 1), (3, 2)]:
+                        yield (entry, n, mask, kinds, "int", False, req, nw, cs, fail + (("legacy", True),))
 
 
 def run_shard(shard, ctx):
